@@ -327,3 +327,41 @@ Definition observe (s : st) : obs :=
 
 Fixpoint trace (s : st) (ops : list op) : list obs :=
   match ops with [] => [] | o :: t => let s' := step s o in observe s' :: trace s' t end.
+
+(* ---- comparison with recorded implementation runs (used by the generated cases.v of checks/C16.py) *)
+Fixpoint list_eqb {A} (eqb : A -> A -> bool) (a b : list A) : bool :=
+  match a, b with
+  | [], [] => true
+  | x :: a', y :: b' => eqb x y && list_eqb eqb a' b'
+  | _, _ => false
+  end.
+
+Definition obs_eqb (a b : obs) : bool :=
+  list_eqb Nat.eqb (ob_table a) (ob_table b) && (ob_inflight a =? ob_inflight b) && (ob_blocking a =? ob_blocking b)
+  && list_eqb Z.eqb (ob_mbox a) (ob_mbox b) && list_eqb Z.eqb (ob_stash a) (ob_stash b)
+  && list_eqb Nat.eqb (ob_handled a) (ob_handled b) && Nat.eqb (ob_ctls a) (ob_ctls b)
+  && list_eqb Z.eqb (ob_objs a) (ob_objs b).
+
+(* expected: one entry per op; None = not observed (the whole completeRequest ran inside one real call) *)
+Fixpoint first_mismatch (s : st) (ops : list op) (expected : list (option obs)) (i : Z) : Z :=
+  match ops, expected with
+  | o :: t, e :: et =>
+      let s' := step s o in
+      match e with
+      | Some ob => if obs_eqb (observe s') ob then first_mismatch s' t et (i + 1) else i
+      | None => first_mismatch s' t et (i + 1)
+      end
+  | [], [] => -1
+  | _, _ => i
+  end.
+
+Fixpoint first_taint (s : st) (ops : list op) (i : Z) : Z :=
+  match ops with
+  | [] => -1
+  | o :: t => let s' := step s o in if tainted s' then i else first_taint s' t (i + 1)
+  end.
+
+(* (first step whose observation differs or -1, first tainted step or -1, overtaken at the end) *)
+Definition check_case (mx : Z) (ops : list op) (expected : list (option obs)) : Z * Z * Z :=
+  (first_mismatch (init mx) ops expected 0, first_taint (init mx) ops 0,
+   if overtaken (run mx ops) then 1 else 0).
